@@ -12,6 +12,8 @@ CONSTANTS
   MaxOps = 2
   MaxFaults = 0
   MaxData = 1
+  MaxLate = 0
+  TocAlts = {}
   IdMod = 255
   Bugs = {"slice_by_stored"}
   WithSync = FALSE
